@@ -1,34 +1,61 @@
-"""C04 — test dependencies: ordering, skip propagation (scheduler level)."""
+"""C04 — test dependencies: ordering, skip propagation, early rejection of bad graphs."""
 import common as C
-from props._sched import SchedStream
+from props._runcommon import RUN_TRUSTED, RUN_ASSUMPTIONS, PropRunStream
+from run import selftest as W
 
 PROPERTY = "C04"
-LEAN_MODULES = ["LccModel.Props.C04"]
+LEAN_MODULES = ["LccModel.Props.C04", "LccModel.Props.C01Graph"]
 PROPS_FILES = ["LccModel/Props/C04.lean"]
 NAMESPACES = {"LccModel/Props/C04.lean": "LccModel.C04"}
-DRIVER = "drivers/Sched.lean"
-TRUSTED_BASE = [
-    "Lean 4.33.0 kernel; axioms of the property theorems ⊆ {propext, Classical.choice, Quot.sound}",
-    "hand-written model LccModel/Model/Sched.lean of task.py (run_tasks, pop_runnable_tasks, handle_task, run_task, skip_task, skip_all_tasks)",
-    "trace-inclusion harness: harness/obs/schedrec.py (recording Pool/Queue/handle_task wrappers) + drivers/Sched.lean (acceptor)",
-    "multiprocessing.dummy.Pool and queue.Queue behave as FIFO, unbounded, blocking-get containers (abstracted to 'any queued / any done task')",
-]
-ASSUMPTIONS = [
-    "the pool runs at most nb_threads tasks at once; a task put on the completion queue is eventually received",
-    "KeyboardInterrupt is delivered to the main thread while it waits in completed_tasks_queue.get (the interrupt inside apply_async is C08's stream)",
-]
-RULE = ("random dependency DAG (≤ 40 tasks, on-success and on-completion edges, arbitrary list order) × behaviour per task "
-        "(ok / TaskFailure / exception / exception in skip) × nb_threads 1..8 × gate strategy; non-trivial = ≥ 2 tasks, ≥ 1 edge, "
-        "and (1 thread, or completion order differs from list order, or an interrupt was injected); distinct = hash of the case")
-EXPLANATION = ("Dependency ordering (direct and transitive), run-only-if-dependencies-succeeded and skip propagation are Lean theorems over every task graph, worker count and "
-               "interleaving; each real run_tasks execution is replayed label by label on the same transition function.")
+DRIVER = "drivers/Run.lean"
+TRUSTED_BASE = RUN_TRUSTED + ["scheduler-only stream: harness/props/_sched.py (drivers/Sched.lean)", "rejection of cyclic / unknown / unscheduled dependencies before anything executes: C14's Model/Deps.lean theorems (resolve_ok_iff) and stream C14.validate"]
+ASSUMPTIONS = RUN_ASSUMPTIONS + []
+RULE = 'sched stream: random dependency DAG × behaviours × threads × gates; run stream: generated project (harness/run/gen.py) × nb_threads 1..8 × gate strategy (off/fifo/lifo/random) forcing completion orders; non-trivial = ≥ 2 tests, ≥ 1 body entered, ≥ 8 events; distinct = hash of the case (project + schedule parameters); C04 additionally needs ≥ 1 dependency edge'
+EXPLANATION = 'Dependency ordering (direct and transitive), run-only-if-dependencies-succeeded and skip propagation are Lean theorems over every task graph and interleaving, instantiated for every valid project through buildTasks (C01Graph.test_starts_after_its_dependencies); real runs are replayed on the model and checked by the oracle.'
 
 
-class S(SchedStream):
+def witness(title_prefix):
+    """corpus case built from the hand-written witness table of harness/run/selftest.py"""
+    for title, sig, project, cfg in W.WITNESSES:
+        if title.startswith(title_prefix):
+            return {"project": dict(project, nb_threads=cfg["n"]), "strategy": cfg["strategy"], "gseed": cfg["gseed"],
+                    "interrupt": cfg["interrupt"], "fault": cfg["fault"]}
+    raise KeyError(title_prefix)
+
+
+from props._sched import SchedStream
+
+
+class Sched(SchedStream):
     name = "C04.sched"
-    with_interrupts = True
-    interrupt_apply = False
+    driver = "drivers/Sched.lean"
+    quick_cases = 300
+    quick_seconds = 30
+
+
+class Run(PropRunStream):
+    name = "C04.run"
+    prop = "C04"
+    profile = "basic"
+    oracles = ("C04", "C08")
+    keep_prefixes = ("C04/",)
+    quick_cases = 330
+    quick_seconds = 50
+    corpus = [C.jsonable(c) for c in []]
 
 
 def streams(ctx):
-    return [S()]
+    return [Sched(), Run()]
+
+
+def _disabled_dep_witness():
+    """suite s1's setup fails (failed check in its suite fixture), its DISABLED test t1 is 'skipped' by the scheduler
+    (reported disabled); s2.t4 depends on s1.t1 only and is skipped although all its dependencies are passed or disabled"""
+    from run.selftest import _f, _p, _s, _t
+    return {"project": _p([_s("s1", [_t("t0", ["f3"]), _t("t1", rank=2, disabled=True)]),
+                           _s("s2", [_t("t4", deps=[["s1", "t1"]])], rank=2)],
+                          [_f("f3", "suite", [{"a": "check", "ok": False}])], n=1),
+            "strategy": "off", "gseed": 1, "interrupt": None, "fault": None}
+
+
+Run.corpus = [_disabled_dep_witness()]
